@@ -194,6 +194,8 @@ def run_c17(res, tier, seed):
             run_e2e(res, tb, pkgs)
         for k in range(3 if tier == "quick" else 20):
             run_e2e_session(res, f"{base}/multi{k}", random.Random(seed * 1000 + k))
+        for k in range(2 if tier == "quick" else 12):
+            run_e2e_manifest(res, f"{base}/manifest{k}", random.Random(seed * 1000 + 500 + k), "C17")
     finally:
         shutil.rmtree(base, ignore_errors=True)
     res.cov["rule"] = (f"{n_trees} generated project trees on disk (application + 0-3 registry (build/packages) and path dependencies, nested "
@@ -202,6 +204,70 @@ def run_c17(res, tier, seed):
                        "graph with locality and direct dependencies; model vs implementation vs the layout by construction. non-trivial = tree "
                        "with at least two packages")
     res.cov["samples"] += [{"request": reqs[i], "impl": io[i] if i < len(io) else None} for i in (0, 1)]
+
+
+def run_e2e_manifest(res, tb, rng, prop):
+    """a dependency under build/packages stays external (navigable, not editable) whatever happens to the project's
+    gleam.toml during the session: dependency line dropped, half-typed (invalid TOML), restored, re-read through a
+    watched-files event or by opening the manifest.  Used by C17 (layout) and C08 (rename refuses external symbols)."""
+    def w(path, text):
+        os.makedirs(os.path.dirname(path), exist_ok=True)
+        open(path, "w").write(text)
+    dep = rng.choice(["dep", "gleam_stdlib", "zlib"])
+    good = f'name = "app"\nversion = "1.0.0"\n\n[dependencies]\n{dep} = "~> 1.0"\n'
+    variants = {"dependency-dropped": 'name = "app"\nversion = "1.0.0"\n\n[dependencies]\n',
+                "half-typed": f'name = "app"\nversion = "1.0.0"\n\n[dependencies]\n{dep} = \n',
+                "no-dependencies-table": 'name = "app"\n',
+                "empty": ""}
+    dep_src = "pub fn hello() {\n  1\n}\n\npub fn twice() {\n  hello() + hello()\n}\n"
+    app_src = f"import {dep}\n\npub fn main() {{\n  {dep}.hello()\n}}\n"
+    w(f"{tb}/gleam.toml", good)
+    w(f"{tb}/src/app.gleam", app_src)
+    w(f"{tb}/build/packages/{dep}/gleam.toml", f'name = "{dep}"\nversion = "1.0.0"\n')
+    w(f"{tb}/build/packages/{dep}/src/{dep}.gleam", dep_src)
+    toml_uri = "file://" + f"{tb}/gleam.toml"
+    dep_uri = "file://" + f"{tb}/build/packages/{dep}/src/{dep}.gleam"
+    app_uri = "file://" + f"{tb}/src/app.gleam"
+    key = "C17/dependency-editable-after-manifest-reread" if prop == "C17" else "C08/external-symbol-renameable-after-manifest-reread"
+    c = lsp.Lsp(tb)
+    try:
+        if c.initialize() is None:
+            return
+        c.notify("textDocument/didOpen", {"textDocument": {"uri": app_uri, "languageId": "gleam", "version": 1, "text": app_src}})
+        history = []
+
+        def ask(stage):
+            for (uri, line, col, where) in ((dep_uri, 0, 8, "its definition"), (dep_uri, 5, 3, "a use inside the dependency"), (app_uri, 3, 4 + len(dep), "the use in the application")):
+                pos = {"textDocument": {"uri": uri}, "position": {"line": line, "character": col}}
+                for method, params in (("textDocument/prepareRename", pos), ("textDocument/rename", dict(pos, newName="greet"))):
+                    r = c.request(method, params, timeout=30)
+                    res.cov["evaluations"] += 1
+                    if r is not None and r.get("result"):
+                        touched = [u for u in ((r["result"].get("changes") or {}) if isinstance(r["result"], dict) else {}) if "/build/packages/" in u]
+                        res.add_violation(key, f"after {stage}: {method.split('/')[1]} at {where} of `hello` (defined in build/packages/{dep}) is accepted"
+                                          + (f" and edits {len(touched)} dependency file(s)" if touched else ""),
+                                          {"tree": tb, "dependency": dep, "history": list(history), "request": {"method": method, "params": params}, "answer": r})
+                        return False
+            return True
+
+        if not ask("a fresh session"):
+            return
+        steps = list(variants)
+        rng.shuffle(steps)
+        for name in steps[: rng.randrange(2, 4)]:
+            for text, label in ((variants[name], name), (good, "restored")):
+                w(f"{tb}/gleam.toml", text)
+                how = rng.choice(["watched", "watched", "opened"])
+                if how == "watched":
+                    c.notify("workspace/didChangeWatchedFiles", {"changes": [{"uri": toml_uri, "type": 2}]})
+                else:
+                    c.notify("textDocument/didOpen", {"textDocument": {"uri": toml_uri, "languageId": "toml", "version": 1, "text": text}})
+                    c.notify("textDocument/didClose", {"textDocument": {"uri": toml_uri}})
+                history.append(f"gleam.toml {label} ({how})")
+                if not ask(f"gleam.toml {label}, re-read ({how})"):
+                    return
+    finally:
+        c.close()
 
 
 def run_e2e_session(res, tb, rng):
